@@ -454,6 +454,56 @@ func runC15(c *Ctx) {
 		doc = append(doc, fields...)
 		tsCheck(c, TSCase{Path: "fine-binary", T: t, Text: digits, InputHex: hex.EncodeToString(doc)}, true)
 	})
+	// ---- several timestamps of different precision through one Reader / one Writer ----
+	ns := c.N(1500, 60000)
+	c.Parallel(ns, func(w, i int) {
+		cs := c.Seed*9_300_011 + int64(i)
+		g := gen.New(cs)
+		r := rand.New(rand.NewSource(cs))
+		var vals []*model.Value
+		n := 2 + r.Intn(5)
+		for j := 0; j < n; j++ {
+			t := g.TS()
+			if j > 0 && r.Intn(2) == 0 {
+				// coarser than its predecessor: nothing of the earlier value may show through
+				t.Prec = model.PYear + r.Intn(int(vals[0].T.Prec-model.PYear)+1)
+				t = t.Normalize()
+				if !t.Valid() {
+					t = g.TS()
+				}
+			}
+			vals = append(vals, model.TSV(t))
+		}
+		switch i % 3 {
+		case 1:
+			vals = []*model.Value{model.ListV(vals...)}
+		case 2:
+			st := model.StructV()
+			for _, v := range vals {
+				st.Kids = append(st.Kids, v.WithField(model.T("t")))
+			}
+			vals = []*model.Value{st, model.TSV(g.TS())}
+		}
+		for _, bin := range []bool{false, true} {
+			sub := "sequence-read-text"
+			if bin {
+				sub = "sequence-read-binary"
+			}
+			if ran, _ := runReadCase(c, sub, ReadCase{CaseSeed: cs, Binary: bin, P: 0.2, Vals: vals}); ran {
+				c.NonTrivial(fmt.Sprintf("seq|%v|%s", bin, model.FmtAll(vals)))
+			}
+		}
+		for _, mode := range []int{ModeText, ModeBinary} {
+			if runWriteCase(c, "sequence-write", WriteCase{CaseSeed: cs, Mode: mode, Vals: vals}, func(k WriteCase, out []byte) string {
+				if v := judgeC01(k, out); v != "" {
+					return v
+				}
+				return judgeC04(k, out)
+			}, nil) {
+				c.NonTrivial(fmt.Sprintf("seqw|%d|%s", mode, model.FmtAll(vals)))
+			}
+		}
+	})
 	c.mu.Lock()
 	inc := c.obs["harness_inconsistent"]
 	c.mu.Unlock()
@@ -464,7 +514,7 @@ func runC15(c *Ctx) {
 
 func init() {
 	Register(&Monitor{ID: "C15", Run: func(c *Ctx) {
-		c.Rule = "timestamps from an exhaustive calendar-boundary grid and a seeded generator, each through: String() judged by the independent lexer, ParseTimestamp(String()), text write+read, binary write+read (both also judged by the reference decoders), reference encoding and reference spelling read by ion-go; impossible strings/encodings must be rejected; fractions of 10..30 digits must land within 0.5 ns. Oracle: independent proleptic-Gregorian arithmetic (no time.Time). Non-trivial: minute-or-finer precision with a non-UTC offset, fraction digits with leading/trailing zeros, or a month-end/year-edge date; distinct by (path, timestamp, input)."
+		c.Rule = "timestamps from an exhaustive calendar-boundary grid and a seeded generator, each through: String() judged by the independent lexer, ParseTimestamp(String()), text write+read, binary write+read (both also judged by the reference decoders), reference encoding and reference spelling read by ion-go; sequences of 2..6 timestamps of falling precision through one Reader and one Writer (the instant behind each value read, GetDateTime(), has to be the start of its period); impossible strings/encodings must be rejected; fractions of 10..30 digits must land within 0.5 ns. Oracle: independent proleptic-Gregorian arithmetic (no time.Time). Non-trivial: minute-or-finer precision with a non-UTC offset, fraction digits with leading/trailing zeros, or a month-end/year-edge date; distinct by (path, timestamp, input)."
 		c.Assume("timestamps with precision Nanosecond and 0 fractional digits are the same Ion value as precision Second")
 		runC15(c)
 	}, Replay: func(c *Ctx, v *Violation) string {
